@@ -35,6 +35,7 @@ def detailOfLetter (c : Char) : Option Detail :=
   | 'm' => some ⟨.malformed, id⟩
   | 'e' => some ⟨.noTypeURL, id⟩
   | 'b' => some ⟨.badURL, id⟩
+  | '?' => some ⟨.badURL, id⟩   -- harness: a decoded detail that is none of the known payloads (never expected)
   | _ => none
 
 def details? (s : String) : Option (List Detail) :=
